@@ -373,7 +373,13 @@ class C09:
                 bad = 'chibicc -E rejects input accepted by gcc and clang: rc=%s %s' % (rx, ex.strip().split('\n')[-1][:200])
             else:
                 a, b = (pptok.norm_strings(tx), pptok.norm_strings(tg)) if loose else (tx, tg)
-                if a != b:
+                if a != b and is_d27(src, a, b):
+                    # recorded finding D27: an invocation that only comes into being during expansion (a parameter that stands for an
+                    # empty argument inside a generated argument list, a macro name passed as an argument) can give ', ## __VA_ARGS__'
+                    # a present-but-empty variable argument although no generated invocation does; identified by the program shape
+                    # and the symptom: the sequences differ only in commas that chibicc dropped
+                    self.excl['D27'] = self.excl.get('D27', 0) + 1
+                elif a != b:
                     bad = 'token sequence differs\n  expected: %s\n  observed: %s' % (' '.join(tg)[:600], ' '.join(tx)[:600])
             if bad:
                 rep = {'kind': 'cpp', 'source': src, 'loose_strings': loose, 'signature': core.shash(src)}
@@ -392,6 +398,23 @@ class C09:
 
     def replay(self, tree, rep, wd):
         return cpp_replay(tree, rep, wd)
+
+
+def is_d27(src, got, want):
+    """the program has `, ## __VA_ARGS__` and chibicc's token sequence is the references' minus some commas"""
+    import re
+    if not re.search(r',\s*##\s*__VA_ARGS__', src):
+        return False
+    if [t for t in got if t != ','] != [t for t in want if t != ',']:
+        return False
+    # `got` must be obtainable from `want` by deleting commas only (never by adding one)
+    i = 0
+    for t in want:
+        if i < len(got) and got[i] == t:
+            i += 1
+        elif t != ',':
+            return False
+    return i == len(got)
 
 
 def is_d56(err):
@@ -431,6 +454,8 @@ def cpp_replay(tree, rep, wd, args=()):
     if rx != 0:
         return True, 'chibicc -E rejects input accepted by gcc and clang: %s' % ex.strip().split('\n')[-1][:200]
     a, b = (pptok.norm_strings(tx), pptok.norm_strings(tg)) if loose else (tx, tg)
+    if a != b and is_d27(rep['source'], a, b) and not rep.get('finding'):
+        return False, 'recorded finding D27 (commas of , ## __VA_ARGS__ with a present-but-empty variable argument)'
     if a != b:
         return True, 'expected: %s\nobserved: %s' % (' '.join(tg)[:500], ' '.join(tx)[:500])
     return False, 'token sequences agree: %s' % ' '.join(tg)[:200]
